@@ -7,6 +7,7 @@ import (
 	"go/constant"
 	"go/types"
 	"math/big"
+	"sort"
 	"strconv"
 	"strings"
 )
@@ -21,6 +22,8 @@ type cenv struct {
 	nq    *int
 	depth int
 	side  *[]string // heap well-formedness facts about loaded terms
+	// recSyms: recursive spec functions currently being defined -> their symbol
+	recSyms map[string]string
 }
 
 // noteLoad records the well-formedness of a term loaded from the heap (refs are
@@ -417,7 +420,7 @@ func (e *cenv) index(x *cIndex) val {
 		_, vk, _ := g.mapKeys(u)
 		return e.noteLoad(val{fmt.Sprintf("(select (select %s %s) %s)", g.read(e.st, vk), b.t, i.t), u.Elem(), g.sortOf(u.Elem())})
 	case *types.Array:
-		return val{fmt.Sprintf("(select %s %s)", b.t, i.t), u.Elem(), g.sortOf(u.Elem())}
+		return val{g.arrGet(u, b.t, i.t), u.Elem(), g.sortOf(u.Elem())}
 	case *types.Basic:
 		if u.Info()&types.IsString != 0 {
 			return val{fmt.Sprintf("(str.to_code (str.at %s %s))", b.t, i.t), types.Typ[types.Uint8], "Int"}
@@ -490,10 +493,8 @@ func (g *fgen) ptrLoc(ref string, elem types.Type) *loc {
 		return &loc{root: rootField, rootT: typeName(elem), base: ref, typ: elem}
 	}
 	if a, ok := elem.Underlying().(*types.Array); ok {
-		_ = a
 		// whole array behind a pointer: the array object lives in the element heap
-		l := &loc{root: rootBox, rootT: "arr_" + g.elemKeyName(a.Elem()), base: ref, typ: elem}
-		return l
+		return &loc{root: rootElem, rootT: g.elemKeyName(a.Elem()), base: ref, idx: "", typ: elem}
 	}
 	return &loc{root: rootBox, rootT: mangle(g.sortOf(elem)), base: ref, typ: elem}
 }
@@ -991,7 +992,7 @@ func (e *cenv) specCall(sf *specFunc, args []val) val {
 		for i, p := range sf.params {
 			vars[p.name] = val{args[i].t, ptypes[i], g.sortOf(ptypes[i])}
 		}
-		n := &cenv{g: g, st: e.st, old: e.old, vars: vars, pkg: pkg, nq: e.nq, depth: e.depth + 1, side: e.side}
+		n := &cenv{g: g, st: e.st, old: e.old, vars: vars, pkg: pkg, nq: e.nq, depth: e.depth + 1, side: e.side, recSyms: e.recSyms}
 		r := n.tr(sf.body)
 		if r.sort == "nil" {
 			r = val{g.zero(rt), rt, g.sortOf(rt)}
@@ -1005,24 +1006,79 @@ func (e *cenv) specCall(sf *specFunc, args []val) val {
 		return val{r.t, rt, r.sort}
 	}
 	name := "sf_" + sf.name
-	if !g.declared[name] {
-		g.declared[name] = true
-		var ss, bs []string
-		vars := map[string]val{}
-		for i, p := range sf.params {
-			ss = append(ss, g.sortOf(ptypes[i]))
-			bn := "a!" + p.name
-			bs = append(bs, fmt.Sprintf("(%s %s)", bn, g.sortOf(ptypes[i])))
-			vars[p.name] = val{bn, ptypes[i], g.sortOf(ptypes[i])}
-		}
-		if sf.body == nil {
+	var ss, bs []string
+	vars := map[string]val{}
+	for i, p := range sf.params {
+		ss = append(ss, g.sortOf(ptypes[i]))
+		bn := "a!" + p.name
+		bs = append(bs, fmt.Sprintf("(%s %s)", bn, g.sortOf(ptypes[i])))
+		vars[p.name] = val{bn, ptypes[i], g.sortOf(ptypes[i])}
+	}
+	if sf.body == nil {
+		if !g.declared[name] {
+			g.declared[name] = true
 			g.emit(fmt.Sprintf("(declare-fun %s (%s) %s)", name, strings.Join(ss, " "), g.sortOf(rt)))
+		}
+	} else {
+		// Recursive spec function, possibly reading the heap.  One function symbol per
+		// distinct heap state (the versions of the heap cells the body reads), defined by
+		// a quantified axiom; equal states share the symbol, so framing is automatic.
+		if sym, ok := e.recSyms[sf.name]; ok {
+			name = sym // recursive occurrence inside its own definition
 		} else {
-			n := &cenv{g: g, st: e.st, old: e.old, vars: vars, pkg: pkg, nq: e.nq, depth: e.depth + 1}
-			// recursive: name is marked declared first so the body can mention it;
-			// anything the body needs is emitted before the definition itself.
-			r := n.tr(sf.body)
-			g.emit(fmt.Sprintf("(define-fun-rec %s (%s) %s %s)", name, strings.Join(bs, " "), g.sortOf(rt), r.t))
+			// pass 1: discover the read set
+			rec := map[string]bool{}
+			savedRec := g.readRec
+			g.readRec = rec
+			probe := &cenv{g: g, st: e.st, old: e.old, vars: vars, pkg: pkg, nq: e.nq, depth: e.depth + 1, recSyms: map[string]string{}}
+			for k, v := range e.recSyms {
+				probe.recSyms[k] = v
+			}
+			probe.recSyms[sf.name] = "sf_probe_" + sf.name
+			if !g.declared["sf_probe_"+sf.name] {
+				g.declared["sf_probe_"+sf.name] = true
+				g.emit(fmt.Sprintf("(declare-fun sf_probe_%s (%s) %s)", sf.name, strings.Join(ss, " "), g.sortOf(rt)))
+			}
+			probe.tr(sf.body)
+			g.readRec = savedRec
+			if savedRec != nil {
+				for k := range rec {
+					savedRec[k] = true
+				}
+			}
+			var keys []string
+			for k := range rec {
+				keys = append(keys, k)
+			}
+			sort.Strings(keys)
+			sig := ""
+			for _, k := range keys {
+				sig += k + "=" + g.read(e.st, k) + ";"
+			}
+			if len(keys) > 0 {
+				name = fmt.Sprintf("%s_s%x", name, hashString(sig))
+			}
+			if !g.declared[name] {
+				g.declared[name] = true
+				g.emit(fmt.Sprintf("(declare-fun %s (%s) %s)", name, strings.Join(ss, " "), g.sortOf(rt)))
+				n := &cenv{g: g, st: e.st, old: e.old, vars: vars, pkg: pkg, nq: e.nq, depth: e.depth + 1, recSyms: map[string]string{}}
+				for k, v := range e.recSyms {
+					n.recSyms[k] = v
+				}
+				n.recSyms[sf.name] = name
+				r := n.tr(sf.body)
+				var an []string
+				for _, p := range sf.params {
+					an = append(an, "a!"+p.name)
+				}
+				app := name
+				if len(an) > 0 {
+					app = "(" + name + " " + strings.Join(an, " ") + ")"
+					g.emit(fmt.Sprintf("(assert (forall (%s) (! (= %s %s) :pattern (%s))))", strings.Join(bs, " "), app, r.t, app))
+				} else {
+					g.emit(fmt.Sprintf("(assert (= %s %s))", app, r.t))
+				}
+			}
 		}
 	}
 	var as []string
